@@ -24,6 +24,8 @@ type profile struct {
 	quickIDk, quickScafK       int
 	thoroughIDk, thoroughScafK int
 	u85k                       int // K(U85,k) in thorough (0 = off)
+	maxListKeys                int // key lists longer than this are left out (0 = no limit); C19: String() is quadratic
+	shiftScafK                 int // thorough: the 130 shift scaffolds range over K(U21,shiftScafK) (0 = 2)
 	u85k4                      bool
 	many                       bool
 	manyQuick                  bool
@@ -366,6 +368,16 @@ func buildPhases(r *h.Run, p profile) []phase {
 	phases = append(phases, subsetPhase("id:K(U21)", sp.u2, 0, idk, []h.Scaffold{h.ScaffoldID()}, mk(sp.q2)))
 
 	scs := scaffoldSet(sp, thorough, shorts, p.scaffoldFilter)
+	if p.maxListKeys > 0 {
+		var out []h.Scaffold
+		for _, sc := range scs {
+			if len(sc.Apply(nil).Keys) <= p.maxListKeys {
+				out = append(out, sc)
+			}
+		}
+		scs = out
+		r.Bounds["max_list_keys"] = p.maxListKeys
+	}
 	var scNames []string
 	for _, s := range scs {
 		scNames = append(scNames, s.Name)
@@ -396,8 +408,12 @@ func buildPhases(r *h.Run, p profile) []phase {
 				latePhases = append(latePhases, subsetPhase("scaffolds:K(U21)", sp.u2, 0, sck, others, mk(sp.q2)))
 			}
 			if len(shifts) > 0 {
-				r.Bounds["shift_scaffold_space"] = fmt.Sprintf("K(U21,2) = %d variable sets per shift offset", h.SubsetCount(len(sp.u2), 2))
-				latePhases = append(latePhases, subsetPhase("shift-scaffolds:K(U21,2)", sp.u2, 0, 2, shifts, mk(sp.q2)))
+				sk := p.shiftScafK
+				if sk == 0 {
+					sk = 2
+				}
+				r.Bounds["shift_scaffold_space"] = fmt.Sprintf("K(U21,%d) = %d variable sets per shift offset", sk, h.SubsetCount(len(sp.u2), sk))
+				latePhases = append(latePhases, subsetPhase(fmt.Sprintf("shift-scaffolds:K(U21,%d)", sk), sp.u2, 0, sk, shifts, mk(sp.q2)))
 			}
 			if len(huge) > 0 {
 				r.Bounds["large_short_filler_space"] = fmt.Sprintf("K(U21,1) = %d variable sets per large short-table filler", h.SubsetCount(len(sp.u2), 1))
@@ -417,6 +433,57 @@ func buildPhases(r *h.Run, p profile) []phase {
 			}
 		} else {
 			phases = append(phases, subsetPhase("scaffolds:K(U21)", sp.u2, 0, sck, scs, mk(sp.q2)))
+			// every short-table size up to the maximum (10) also in the quick tier:
+			// the sizes not in shortQuick over K(U21,1) with one filler mode (the
+			// largest filler has about 56 k keys)
+			if len(shorts) > 0 {
+				inQuick := map[int]bool{}
+				for _, s := range shorts {
+					inQuick[s] = true
+				}
+				var rest []int
+				for _, s := range p.shortThorough {
+					if !inQuick[s] && s >= 2 {
+						rest = append(rest, s)
+					}
+				}
+				var big []h.Scaffold
+				for _, s := range rest {
+					if f := shortFiller(sp.sigma, s, false); f != nil && (p.maxListKeys == 0 || len(f) <= p.maxListKeys) {
+						big = append(big, h.ScaffoldFixed(fmt.Sprintf("short%d", s), f, "\xb0"))
+						scNames = append(scNames, fmt.Sprintf("short%d", s))
+					}
+				}
+				if p.scaffoldFilter != nil {
+					var out []h.Scaffold
+					for _, s := range big {
+						if p.scaffoldFilter(s.Name) {
+							out = append(out, s)
+						}
+					}
+					big = out
+				}
+				if len(big) > 0 {
+					r.Bounds["scaffolds"] = scNames
+					r.Bounds["large_short_filler_space"] = fmt.Sprintf("K(U21,1) = %d variable sets per short-table size in %v", h.SubsetCount(len(sp.u2), 1), rest)
+					mkh := mk(sp.q2)
+					phases = append(phases, subsetPhase("large-short-fillers:K(U21,1)", sp.u2, 0, 1, big, func(sc *h.Scaffolded, small bool) *inputSpec {
+						u := mkh(sc, false)
+						if p.opts == nil {
+							u.opts = []h.Opt4{h.Distinct8()[0], h.Distinct8()[7]}
+						}
+						u.fillerModes = []string{"distinct"}
+						u.insts = []string{h.InstFresh}
+						if len(sc.Keys)%2 == 1 {
+							u.insts = []string{h.InstUnm}
+						}
+						if p.needQs {
+							u.qs = queriesFor(sc, sp.q2, false, false)
+						}
+						return u
+					}))
+				}
+			}
 		}
 	}
 
@@ -520,6 +587,15 @@ func buildPhases(r *h.Run, p profile) []phase {
 
 	if (thorough && p.many) || (!thorough && p.manyQuick) {
 		fams := manyFamilies(sp, thorough)
+		if p.maxListKeys > 0 {
+			var out []*h.Scaffolded
+			for _, f := range fams {
+				if len(f.Keys) <= p.maxListKeys {
+					out = append(out, f)
+				}
+			}
+			fams = out
+		}
 		var famNames []string
 		for _, f := range fams {
 			famNames = append(famNames, fmt.Sprintf("%s(%d keys)", f.Name, len(f.Keys)))
